@@ -20,6 +20,7 @@
 #include <cstdint>
 #include <cstdio>
 #include <cstdlib>
+#include <cstring>
 #include <iostream>
 #include <map>
 #include <memory>
@@ -27,6 +28,8 @@
 #include <set>
 #include <string>
 #include <thread>
+#include <sched.h>
+#include <sys/syscall.h>
 #include <unistd.h>
 #include <vector>
 
@@ -70,16 +73,50 @@ void hang(const char *what) {
   _exit(3);
 }
 
+// Waiting for the baton: a few yields, then short, growing sleeps.  (4000 yields before the first
+// sleep made every hand-over cost a full time slice of whatever else ran on the CPU: 2000 cases took
+// 0.5 s on an idle machine and 153 s on a CPU shared with two busy loops.)  `spin` = number of
+// yields before the first sleep; the free-running idrace keeps a long spin so that its workers
+// start at the same moment.
 struct Waiter {
   std::chrono::steady_clock::time_point t0 = std::chrono::steady_clock::now();
-  unsigned n = 0;
+  unsigned n = 0, spin;
+  explicit Waiter(unsigned spin_ = 20) : spin(spin_) {}
   void pause(const char *what) {
-    if (++n < 4000) { std::this_thread::yield(); return; }
-    std::this_thread::sleep_for(std::chrono::microseconds(50));
-    if ((n & 1023) == 0 &&
+    if (++n <= spin) { std::this_thread::yield(); return; }
+    const unsigned k = n - spin;
+    const unsigned us = k < 8 ? 1 : k < 16 ? 5 : k < 32 ? 20 : k < 64 ? 50 : 200;
+    std::this_thread::sleep_for(std::chrono::microseconds(us));
+    if ((k & 63) == 0 &&
         std::chrono::steady_clock::now() - t0 > std::chrono::seconds(WATCHDOG_S)) hang(what);
   }
 };
+
+// The baton runs are sequential by construction (one worker moves per step), so the whole process
+// is confined to the CPU it starts on and asks the scheduler for a short time slice (EEVDF custom
+// slice, Linux >= 6.12; silently without effect elsewhere): a worker woken for its step then
+// pre-empts a CPU-bound neighbour instead of waiting for the end of that one's 3 ms slice.
+// Measured here (2000 cases): idle 0.2-0.5 s before and after; one CPU shared with two busy loops
+// 153 s before, 8.4 s after.  Both are best effort: a failure changes timing only.
+void confine_to_one_cpu() {
+  const int cpu = sched_getcpu();
+  if (cpu >= 0) {
+    cpu_set_t set;
+    CPU_ZERO(&set);
+    CPU_SET(cpu, &set);
+    sched_setaffinity(0, sizeof set, &set);
+  }
+  struct {
+    std::uint32_t size, policy; std::uint64_t flags; std::int32_t nice; std::uint32_t prio;
+    std::uint64_t runtime, deadline, period; std::uint32_t umin, umax;
+  } a;
+  std::memset(&a, 0, sizeof a);
+  a.size = sizeof a;
+  if (syscall(SYS_sched_getattr, 0, &a, sizeof a, 0) == 0 && a.policy == 0) {
+    a.runtime = 100000;   // 0.1 ms, the smallest slice the kernel accepts
+    syscall(SYS_sched_setattr, 0, &a, 0);
+  }
+}
 
 void park(Th *t, int point) {
   const std::uint64_t seq = (t->status.load(RLX) >> 8) + 1;
@@ -370,7 +407,7 @@ template<class T> bool id_race(int rounds, int nthreads, const char *what) {
   for (int i = 0; i < nthreads; ++i) {
     ths.emplace_back([&, i]() {
       for (int k = 1; k <= rounds; ++k) {
-        Waiter w;
+        Waiter w(4000);
         while (go.load(RLX) < k) w.pause("idrace");
         objs[i].emplace_back(Tr<T>::make());
         done.fetch_add(1, RLX);
@@ -379,7 +416,7 @@ template<class T> bool id_race(int rounds, int nthreads, const char *what) {
   }
   for (int k = 1; k <= rounds; ++k) {
     go.store(k, RLX);
-    Waiter w;
+    Waiter w(4000);
     while (done.load(RLX) < k * nthreads) w.pause("idrace-main");
   }
   for (auto &t : ths) t.join();
@@ -439,6 +476,7 @@ int main(int argc, char **argv) {
   if (argc >= 4 && std::string(argv[1]) == "idrace")
     return idrace(std::atoi(argv[2]), std::atoi(argv[3]));
   primitiv::verif::sched_hook() = hook;
+  confine_to_one_cpu();
   std::string line;
   while (std::getline(std::cin, line)) {
     const std::vector<std::string> tk = pvh::tokens(line);
